@@ -95,6 +95,9 @@ func checkC04(c *Ctx) {
 		"404/400 refusal edges that reach no state change, stateless-mode guards on every Mcp-Session-Id emission, DELETE passing the stream cleanup, and the session table's locking, writer set and check-then-act atomicity."
 	c.R.NotDecided = "agreement of the live-session set with an arbitrary history (model-level claim); expiry timing; behaviour of a user-supplied session manager"
 	c.R.Assumptions = []string{"crypto/rand.Read fills the whole buffer or returns an error", "net/http serves each request on its own goroutine", "type-level lock identity"}
+	// "the answer to a request does not depend on any earlier request" (stateless) and "served in that session"
+	// (stateful): the session a request is dispatched on is looked up or created for it, never a shared member
+	dispatchOwnContext(c, "R-own-session")
 	x := &c04ctx{c: c, guardFlags: map[string]bool{}, accs: CollectAccesses(c), inserters: map[*ssa.Function]bool{}, deleters: map[*ssa.Function]bool{}, lookers: map[*ssa.Function]bool{},
 		reachCache: map[*ssa.Function]map[*ssa.Function]bool{}}
 
